@@ -3,6 +3,7 @@
 //! note: FundedChannel::write and the disconnection it implies: inbound HTLCs the peer has announced but not yet committed (RemoteAnnounced) are not written, the written HTLC count is reduced by their number, and so is the written next_counterparty_htlc_id (the peer retransmits those adds with the same ids after the reload)
 //! trusted: R15 (statement slicing with captures): FundedChannel::write is ~500 lines of field-by-field serialization; the unit extracts, on every run, (a) the loop that counts the dropped inbound HTLCs, (b) the expression written as the inbound HTLC count, (c) the skip test of the loop that writes the inbound HTLCs, and (d) the expression written between next_holder_htlc_id and update_time_counter (the slot of next_counterparty_htlc_id), verbatim, as one function returning the two written numbers and the number of HTLCs not skipped; every other field of the channel is dropped and not claimed; `x.write(writer)?` of the two numbers becomes returning them
 //! trusted: R6: `for htlc in self.context.pending_inbound_htlcs.iter() { B }` becomes an index loop; R16: `if let &P = &e` is written `if let P = e` / a match (Verus has no `&` patterns); env: InboundHTLCState is a 5-variant skeleton without payloads (the source variants carry resolutions), InboundHTLCOutput skeleton {htlc_id, state}; Ctx/FundedChannel self skeletons
+//! trusted: R15 (deep slices): write_chanmon_internal: the filter predicate that counts the pending monitor events with a legacy record and the match of the loop that writes those records, verbatim; the writer counts record tags (u8 writes) in a ghost field; HTLCUpdate::write writes no tag; MonitorEvent is extracted with opaque payloads; every other field of the monitor is dropped and not claimed
 //! assume: every pending inbound HTLC consumed one counterparty HTLC id: next_counterparty_htlc_id >= pending_inbound_htlcs.len()
 use vstd::prelude::*;
 verus! {
@@ -80,5 +81,46 @@ impl FundedChannel {
     (self.context.pending_inbound_htlcs.len() as u64).write(writer)?;
 //@end
 }
+
+// ---- ChannelMonitor write: the legacy pending-monitor-event records announced are exactly the ones written (two deep R15 slices of write_chanmon_internal) ----
+pub struct HTLCUpdate {} pub struct ClosureReason {} pub struct OutPoint {} pub struct ChannelId {}
+//@extract lightning/src/chain/channelmonitor.rs :: enum MonitorEvent
+//@end
+pub struct Error {}
+// a writer that counts record tags (one u8 tag opens every legacy record)
+pub struct TagWriter { pub tags: Ghost<int> }
+pub trait Writeable { fn write(&self, writer: &mut TagWriter) -> (r: Result<(), Error>); }
+impl Writeable for u8 { #[verifier::external_body] fn write(&self, writer: &mut TagWriter) -> (r: Result<(), Error>) ensures r is Ok ==> final(writer).tags@ == old(writer).tags@ + 1, r is Err ==> final(writer).tags@ == old(writer).tags@ { unimplemented!() } }
+impl Writeable for HTLCUpdate { #[verifier::external_body] fn write(&self, writer: &mut TagWriter) -> (r: Result<(), Error>) ensures final(writer).tags@ == old(writer).tags@ { unimplemented!() } }
+pub open spec fn has_legacy_record(ev: MonitorEvent) -> bool { ev is HTLCEvent || ev is HolderForceClosed || ev is HolderForceClosedWithInfo }
+//@extract lightning/src/chain/channelmonitor.rs :: fn write_chanmon_internal
+//@slice R15
+    channel_monitor .pending_monitor_events .iter() .filter(|ev| $pred) .count() as u64
+//@with
+    fn event_is_counted(ev: &MonitorEvent) -> bool { $pred }
+//@ret r
+//@ensures P C12 the-count-written-before-the-pending-monitor-events-covers-exactly-the-events-that-have-a-legacy-record
+    r == has_legacy_record(*ev),
+//@mutant force_closed_with_info_not_counted
+    MonitorEvent::HolderForceClosedWithInfo { .. } => true,
+//@with
+    MonitorEvent::HolderForceClosedWithInfo { .. } => false,
+//@end
+//@extract lightning/src/chain/channelmonitor.rs :: fn write_chanmon_internal
+//@slice R15
+    for event in channel_monitor.pending_monitor_events.iter() { match event { $arms:any } }
+//@with
+    fn write_legacy_event_record(event: &MonitorEvent, writer: &mut TagWriter) -> Result<(), Error> {
+        match event { $arms }
+        Ok(())
+    }
+//@ret r
+//@ensures P C12 every-counted-pending-monitor-event-writes-exactly-one-legacy-record-and-no-other-event-writes-any
+    r is Ok ==> final(writer).tags@ == old(writer).tags@ + (if has_legacy_record(*event) { 1int } else { 0int }),
+//@mutant force_closed_with_info_record_not_written
+    MonitorEvent::HolderForceClosedWithInfo { .. } => 1u8.write(writer)?,
+//@with
+    MonitorEvent::HolderForceClosedWithInfo { .. } => {},
+//@end
 }
 fn main() {}
